@@ -1332,5 +1332,182 @@ theorem swapFiber_spec (comb : κ → κ → κ) (rev hd tl : κ → κ) (hH : L
 
 end unflat
 
+/-! ### tuple coordinates (`Coord = List Int`, and lists over any strictly ordered type) -/
+
+section coord
+variable {α : Type} [LT α] [DecidableRel (α := α) (· < ·)] [DecidableEq α] [StrictTotal α]
+
+theorem append_left_lt : ∀ (c : List α) {a b : List α}, a < b → c ++ a < c ++ b
+  | [], _, _, h => h
+  | x :: c, _, _, h => List.cons_lt_cons_iff.2 (Or.inr ⟨rfl, append_left_lt c h⟩)
+
+theorem append_lt_of_lt_same_length : ∀ {a a' : List α}, a < a' → a.length = a'.length →
+    ∀ x y : List α, a ++ x < a' ++ y
+  | [], [], h, _, _, _ => absurd h (List.not_lt_nil _)
+  | [], _ :: _, _, hl, _, _ => by simp at hl
+  | _ :: _, [], _, hl, _, _ => by simp at hl
+  | p :: a, q :: a', h, hl, x, y => by
+    rcases List.cons_lt_cons_iff.1 h with h1 | ⟨h1, h2⟩
+    · exact List.cons_lt_cons_iff.2 (Or.inl h1)
+    · exact List.cons_lt_cons_iff.2 (Or.inr ⟨h1, append_lt_of_lt_same_length h2 (by simpa using hl) x y⟩)
+
+/-- Python's tuple order is the lexicographic order of (first component, remaining components) -/
+theorem lexSplit_list : LexSplit (κ := List α) (fun c => c.take 1) (fun c => c.drop 1) := by
+  intro a b h
+  cases a with
+  | nil =>
+    cases b with
+    | nil => exact absurd h (List.not_lt_nil _)
+    | cons y b => exact Or.inl (List.nil_lt_cons _ _)
+  | cons x a =>
+    cases b with
+    | nil => exact absurd h (List.not_lt_nil _)
+    | cons y b =>
+      rcases List.cons_lt_cons_iff.1 h with h1 | ⟨h1, h2⟩
+      · exact Or.inl (List.cons_lt_cons_iff.2 (Or.inl h1))
+      · subst h1
+        exact Or.inr ⟨rfl, by simpa using h2⟩
+
+variable {π : Type}
+
+/-- concatenated coordinates come out ascending when the upper coordinates of the fiber all
+    have the same number of components -/
+theorem sorted_pairs_append (n : Nat) : ∀ (f : Fib (List α) (Fib (List α) π)),
+    Sorted f → (∀ e ∈ f, Sorted e.2) → (∀ e ∈ f, e.1.length = n) →
+    Sorted (pairsOf (fun a b => a ++ b) f)
+  | [], _, _, _ => List.Pairwise.nil
+  | e :: f, hs, hsub, hn => by
+    unfold pairsOf
+    rw [List.flatMap_cons]
+    unfold Sorted
+    rw [List.pairwise_append]
+    refine ⟨?_, sorted_pairs_append n f hs.tail (fun e' he' => hsub e' (List.mem_cons_of_mem _ he'))
+      (fun e' he' => hn e' (List.mem_cons_of_mem _ he')), ?_⟩
+    · rw [List.pairwise_map]
+      exact List.Pairwise.imp (fun hab => append_left_lt e.1 hab) (hsub e (List.mem_cons_self ..))
+    · intro a ha b hb
+      obtain ⟨x, _, rfl⟩ := List.mem_map.1 ha
+      obtain ⟨e', he', hb'⟩ := List.mem_flatMap.1 hb
+      obtain ⟨y, _, rfl⟩ := List.mem_map.1 hb'
+      exact append_lt_of_lt_same_length (hs.head_lt e' he')
+        ((hn e (List.mem_cons_self ..)).trans (hn e' (List.mem_cons_of_mem _ he')).symm) _ _
+
+end coord
+
+section coordtree
+variable {α : Type} [LT α] [DecidableRel (α := α) (· < ·)] [DecidableEq α] [StrictTotal α]
+variable {ν : Type} [DecidableEq ν]
+
+/-- the coordinates of the upper `l+1` of the `l+2` ranks to flatten have `ar[i]` components -/
+def UpperAr (r : Nat) : (l : Nat) → List Nat → Tree (List α) ν (r + 2 + l) → Prop
+  | _, [], _ => False
+  | 0, a :: _, f => ∀ e ∈ (show List (List α × Tree (List α) ν (r + 1)) from f), e.1.length = a
+  | l + 1, a :: ar, f => ∀ e ∈ (show List (List α × Tree (List α) ν (r + 2 + l)) from f),
+      e.1.length = a ∧ UpperAr r l ar e.2
+
+def tupleComb : Nat → List α → List α → List α := fun _ a b => a ++ b
+
+/-- **tuple / pair styles never collide**: on a well-formed tree whose ranks hold coordinates
+    of uniform arity the concatenated coordinates come out ascending at every level -/
+theorem monoLv_tuple (dflt : ν) (r : Nat) : ∀ (l : Nat) (ar : List Nat) (f : Tree (List α) ν (r + 2 + l)),
+    WF (r + 2 + l) f → UpperAr r l ar f → MonoLv (tupleComb (α := α)) dflt r l f
+  | _, [], _, _, h => absurd h (by cases ‹Nat› <;> exact id)
+  | 0, a :: _, f, hw, h => by
+    show Sorted (pairsOf _ _)
+    apply sorted_pairs_append a
+    · unfold Sorted
+      rw [List.pairwise_map]
+      exact hw.1
+    · intro e he
+      obtain ⟨e', he', rfl⟩ := List.mem_map.1 he
+      exact present_sorted (hw.2 e' he').1
+    · intro e he
+      obtain ⟨e', he', rfl⟩ := List.mem_map.1 he
+      exact h e' he'
+  | l + 1, a :: ar, f, hw, h => by
+    have ih : ∀ e ∈ (show List (List α × Tree (List α) ν (r + 2 + l)) from f),
+        MonoLv (tupleComb (α := α)) dflt r l e.2 :=
+      fun e he => monoLv_tuple dflt r l ar e.2 (hw.2 e he) (h e he).2
+    refine ⟨ih, ?_⟩
+    show Sorted (pairsOf _ (List.map _ (List.map _ _)))
+    rw [List.map_map]
+    apply sorted_pairs_append a
+    · unfold Sorted
+      rw [List.pairwise_map]
+      exact hw.1
+    · intro e he
+      obtain ⟨e', he', rfl⟩ := List.mem_map.1 he
+      exact present_sorted (ih e' he').sorted
+    · intro e he
+      obtain ⟨e', he', rfl⟩ := List.mem_map.1 he
+      exact (h e' he').1
+
+theorem upperAr_points (dflt : ν) (r : Nat) : ∀ (l : Nat) (ar : List Nat) (f : Tree (List α) ν (r + 2 + l)),
+    UpperAr r l ar f → ∀ pv ∈ content dflt (r + 2 + l) f, ∀ c ∈ pv.1.take (l + 1), c.length ∈ ar
+  | _, [], _, h => absurd h (by cases ‹Nat› <;> exact id)
+  | 0, a :: _, f, h => by
+    intro pv hpv c hc
+    rw [content_succ] at hpv
+    obtain ⟨e, he, hpe⟩ := List.mem_flatMap.1 hpv
+    obtain ⟨y, _, rfl⟩ := mem_pre hpe
+    simp only [List.take_succ_cons, List.take_zero, List.mem_singleton] at hc
+    rw [hc, h e he]
+    exact List.mem_cons_self ..
+  | l + 1, a :: ar, f, h => by
+    intro pv hpv c hc
+    have hpv' : pv ∈ (show List (List α × Tree (List α) ν (r + 2 + l)) from f).flatMap
+        (fun e => pre e.1 (content dflt (r + 2 + l) e.2)) := hpv
+    obtain ⟨e, he, hpe⟩ := List.mem_flatMap.1 hpv'
+    obtain ⟨y, hy, rfl⟩ := mem_pre hpe
+    rw [List.take_succ_cons] at hc
+    rcases List.mem_cons.1 hc with rfl | hc
+    · rw [(h e he).1]; exact List.mem_cons_self ..
+    · exact List.mem_cons_of_mem _ (upperAr_points dflt r l ar e.2 (h e he).2 y hy c hc)
+
+theorem flatLv_wf (comb : Nat → List α → List α → List α) (dflt : ν) (r : Nat) :
+    ∀ (l : Nat) (f : Tree (List α) ν (r + 2 + l)), WF (r + 2 + l) f → MonoLv comb dflt r l f →
+      WF (r + 1) (flatLv comb dflt r l f)
+  | 0, f, hw, hm => ⟨hm, flat2_sub_wf (comb 0) dflt r f hw⟩
+  | l + 1, f, hw, hm => by
+    refine ⟨hm.2, ?_⟩
+    apply flat2_sub_wf (comb (l + 1)) dflt r
+    refine ⟨?_, ?_⟩
+    · show Sorted (List.map _ _)
+      unfold Sorted
+      rw [List.pairwise_map]
+      exact hw.1
+    · intro e he
+      obtain ⟨e', he', rfl⟩ := List.mem_map.1 he
+      exact flatLv_wf comb dflt r l e'.2 (hw.2 e' he') (hm.1 e' he')
+
+theorem splitTop_joinTop : ∀ (l : Nat) (p : List (List α)), l + 2 ≤ p.length →
+    (∀ c ∈ p.take (l + 1), c.length = 1) →
+    splitTop (fun c => c.take 1) (fun c => c.drop 1) l (joinTop (tupleComb (α := α)) l p) = p ∧
+    (joinTop (tupleComb (α := α)) l p) ≠ []
+  | 0, c1 :: c0 :: rest, _, h => by
+    have h1 : c1.length = 1 := h c1 (by simp)
+    match c1, h1 with
+    | [a], _ => exact ⟨rfl, by simp [joinTop, join2]⟩
+  | 0, [], hl, _ => by simp at hl
+  | 0, [_], hl, _ => by simp at hl
+  | l + 1, [], hl, _ => by simp at hl
+  | l + 1, c :: rest, hl, h => by
+    have h1 : c.length = 1 := h c (by simp)
+    have ih := splitTop_joinTop l rest (by simpa using hl)
+      (fun c' hc' => h c' (by rw [List.take_succ_cons]; exact List.mem_cons_of_mem _ hc'))
+    match c, h1 with
+    | [a], _ =>
+      cases hj : joinTop (tupleComb (α := α)) l rest with
+      | nil => exact absurd hj ih.2
+      | cons x rest' =>
+        rw [hj] at ih
+        refine ⟨?_, by simp [joinTop, join2, hj]⟩
+        show splitTop _ _ (l + 1) (join2 _ ([a] :: joinTop tupleComb l rest)) = _
+        rw [hj]
+        show [a] :: splitTop _ _ l (x :: rest') = _
+        rw [ih.1]
+
+end coordtree
+
 end C09
 end Ft
